@@ -753,3 +753,46 @@ def _loop_total(fi, name, raw, sn):
             return False, "value_type.clean is not applied to the item itself"
         return True, "loop over every item of `%s`" % raw
     return None, "returned name `%s` is not built by a recognised loop" % name
+
+
+def false_cycle_reports(idx, A, err="RecursiveModelStructure"):
+    """Recursive walks of the reference graph (reachable from Program.run) that raise the recursive-model error when the node at hand
+    is already in a collection they add to, but never take anything out of that collection again and hand the same object down:
+    the collection then holds everything visited, not the current chain, and a result reached along two chains (a diamond) is
+    reported as a cycle.  -> [(function, line, text)]"""
+    out = []
+    reach, _p = idx.reachable([A.program_run])
+    cands = [f for f in reach] + [g for f in reach for g in getattr(f, "nested", {}).values()]
+    seen = set()
+    for f in cands:
+        if f in seen or not hasattr(f, "node"):
+            continue
+        seen.add(f)
+        node = getattr(f, "node_orig", None) or f.node
+        rec = [c for c in ast.walk(node) if isinstance(c, ast.Call) and ((isinstance(c.func, ast.Name) and c.func.id == f.name) or (isinstance(c.func, ast.Attribute) and c.func.attr == f.name and isinstance(c.func.value, ast.Name) and c.func.value.id in ("self", "cls")))]
+        if not rec:
+            continue
+        params = [a.arg for a in node.args.args]
+        for iff in [n for n in ast.walk(node) if isinstance(n, ast.If)]:
+            t = iff.test
+            if not (isinstance(t, ast.Compare) and len(t.ops) == 1 and isinstance(t.ops[0], ast.In) and isinstance(t.comparators[0], ast.Name)):
+                continue
+            if not any(isinstance(x, ast.Raise) and x.exc is not None and err in K.src(x.exc) for st in iff.body for x in ast.walk(st)):
+                continue
+            coll = t.comparators[0].id
+            adds = [c for c in ast.walk(node) if isinstance(c, ast.Call) and isinstance(c.func, ast.Attribute) and c.func.attr in ("add", "append") and isinstance(c.func.value, ast.Name) and c.func.value.id == coll]
+            if not adds:
+                continue
+            removes = [c for c in ast.walk(node) if isinstance(c, ast.Call) and isinstance(c.func, ast.Attribute) and c.func.attr in ("remove", "discard", "pop", "clear") and isinstance(c.func.value, ast.Name) and c.func.value.id == coll]
+            dels = [d for d in ast.walk(node) if isinstance(d, ast.Delete) and any(isinstance(x, ast.Subscript) and isinstance(x.value, ast.Name) and x.value.id == coll for x in d.targets)]
+            # the same object handed down?  (a copy per call - `path | {n}`, `path + [n]`, `set(path)` - unwinds by itself)
+            same_down = False
+            for c in rec:
+                for a in list(c.args) + [k.value for k in c.keywords]:
+                    if isinstance(a, ast.Name) and a.id == coll:
+                        same_down = True
+            if coll not in params:
+                same_down = True  # a closure / outer variable shared by every call
+            if same_down and not removes and not dels:
+                out.append((f, iff.lineno, "%s raises the recursive-model error when `%s` is already in `%s`, a collection it only ever adds to and hands down unchanged: it holds every command visited so far, not the chain being followed, so a result reached along two chains (X feeds Y and Z, Z also reads Y) is reported as a loop and a valid model is refused" % (f.qualname, K.src(t.left), coll)))
+    return out
